@@ -329,52 +329,41 @@ func checkC13(c *Ctx, r *Report) {
 		r.check(good, "C13.R2.unlock-once", "unlockOnce", c.pos(uo.Pos()), "once.Do(l.Unlock)", "unlockOnce no longer wraps l.Unlock in a sync.Once: the start paths release the lock twice")
 	}
 
-	// R3 deadlines
-	for _, name := range []string{"Server.readTCP", "Server.readUDP", "Server.readPacketConn"} {
-		f := c.ssaFunc(name)
-		if f == nil {
-			r.cerr("C13.R3.deadline", name, "function not found")
-			continue
-		}
-		r.fn(name)
-		li := infos[f]
-		if li == nil {
-			li = computeLocks(f, "Server", "lock", lkNone)
-		}
-		var problems []string
-		n := 0
-		allInstrs(f, func(in ssa.Instruction) {
-			call, ok := in.(*ssa.Call)
-			if !ok || !call.Call.IsInvoke() && !strings.HasSuffix(calleeNameSSA(&call.Call), ".SetReadDeadline") {
-				return
+	// R3 deadlines: wherever server.go arms a read deadline outside ShutdownContext (the three readers, or a helper
+	// they share), the call is inside the RLock region and on the started edge
+	{
+		nFns := 0
+		for _, f := range c.allFuncs() {
+			if f.Parent() != nil || !strings.HasSuffix(c.Fset.Position(f.Pos()).Filename, "/server.go") || fnDisplay(f) == "Server.ShutdownContext" {
+				continue
 			}
-			if !strings.HasSuffix(calleeNameSSA(&call.Call), ".SetReadDeadline") {
-				return
-			}
-			n++
-			if li.at[in] < lkR {
-				problems = append(problems, fmt.Sprintf("%s: SetReadDeadline without the lock held: a concurrent Shutdown's unblocking deadline can be overwritten", c.pos(in.Pos())))
-			}
-			g := Guard{Name: "srv.started", Op: "val", A: readsField("Server", "started"), Holds: true}
-			if miss := guardsMissing(f, in.Block(), []Guard{g}); len(miss) > 0 {
-				problems = append(problems, fmt.Sprintf("%s: SetReadDeadline not on the started==true edge", c.pos(in.Pos())))
-			} else {
-				// the started value tested must be read under the same lock region: the load itself is under lock
-				for _, fct := range factsAt(f, in.Block()) {
-					for v := range sliceOf(fct.Atom) {
-						if u, ok := v.(*ssa.UnOp); ok && u.Op == token.MUL && readsField("Server", "started")(u.X) {
-							if li.at[u] < lkR {
-								problems = append(problems, fmt.Sprintf("%s: started is tested outside the lock region", c.pos(u.Pos())))
-							}
-						}
-					}
+			has := false
+			allInstrs(f, func(in ssa.Instruction) {
+				if call, ok := in.(*ssa.Call); ok && strings.HasSuffix(calleeNameSSA(&call.Call), ".SetReadDeadline") {
+					has = true
 				}
+			})
+			if !has {
+				continue
 			}
-		})
-		if n == 0 {
-			problems = append(problems, "no SetReadDeadline call found")
+			nFns++
+			name := fnDisplay(f)
+			r.fn(name)
+			problems := deadlineArmProblems(c, f, infos[f])
+			r.check(len(problems) == 0, "C13.R3.deadline", name, c.pos(f.Pos()), "under RLock, started edge", "%s", strings.Join(problems, "; "))
 		}
-		r.check(len(problems) == 0, "C13.R3.deadline", name, c.pos(f.Pos()), "under RLock, started edge", "%s", strings.Join(problems, "; "))
+		// the three readers arm (or have armed for them) a deadline before they read
+		for _, name := range []string{"Server.readTCP", "Server.readUDP", "Server.readPacketConn"} {
+			f := c.ssaFunc(name)
+			if f == nil {
+				r.cerr("C13.R3.deadline", name, "function not found")
+				continue
+			}
+			arms := reachesCall(f, 2, map[*ssa.Function]bool{}, func(ci ssa.CallInstruction) bool {
+				return strings.HasSuffix(calleeNameSSA(ci.Common()), ".SetReadDeadline")
+			})
+			r.check(arms, "C13.R3.deadline", name+":arms", c.pos(f.Pos()), "arms a read deadline", "no SetReadDeadline call found in %s or what it calls", name)
+		}
 	}
 
 	c13R4(c, r, infos)
@@ -913,4 +902,37 @@ func c13R5(c *Ctx, r *Report) {
 		}
 	}
 	r.check(n == 0 && total == serveSites && total >= 2, "C13.R5.drain", "close(shutdown):sites", "", "only the two serve loops close the drain channel", "%d close(srv.shutdown) sites in methods of Server (%d of them in the two serve loops) and %d elsewhere; expected only the serve loops to close it", total, serveSites, n)
+}
+
+// deadlineArmProblems: what is wrong with the SetReadDeadline calls of f (nothing, when each is made with the server's
+// lock held for reading and on the edge where started, read under that lock, was true).
+func deadlineArmProblems(c *Ctx, f *ssa.Function, li *lockInfo) []string {
+	if li == nil {
+		li = computeLocks(f, "Server", "lock", lkNone)
+	}
+	var problems []string
+	allInstrs(f, func(in ssa.Instruction) {
+		call, ok := in.(*ssa.Call)
+		if !ok || !strings.HasSuffix(calleeNameSSA(&call.Call), ".SetReadDeadline") {
+			return
+		}
+		if li.at[in] < lkR {
+			problems = append(problems, fmt.Sprintf("%s: SetReadDeadline without the lock held: a concurrent Shutdown's unblocking deadline can be overwritten", c.pos(in.Pos())))
+		}
+		g := Guard{Name: "srv.started", Op: "val", A: readsField("Server", "started"), Holds: true}
+		if miss := guardsMissing(f, in.Block(), []Guard{g}); len(miss) > 0 {
+			problems = append(problems, fmt.Sprintf("%s: SetReadDeadline not on the started==true edge", c.pos(in.Pos())))
+		} else {
+			for _, fct := range factsAt(f, in.Block()) {
+				for v := range sliceOf(fct.Atom) {
+					if u, ok := v.(*ssa.UnOp); ok && u.Op == token.MUL && readsField("Server", "started")(u.X) {
+						if li.at[u] < lkR {
+							problems = append(problems, fmt.Sprintf("%s: started is tested outside the lock region", c.pos(u.Pos())))
+						}
+					}
+				}
+			}
+		}
+	})
+	return problems
 }
